@@ -118,6 +118,11 @@ impl StringBuiltin {
 
     #[inline]
     pub fn to_lowercase<'arena>(s: &str, arena: &'arena Arena) -> ArenaString<'arena> {
+        // The lowercase of Σ depends on its position in the word (σ, or ς at the end):
+        // only the string-level mapping knows that.
+        if s.contains('Σ') {
+            return ArenaString::from_str(arena, &s.to_lowercase());
+        }
         let mut buffer = ArenaString::with_capacity_in(s.len(), arena);
         s.chars().flat_map(char::to_lowercase).for_each(|ch| buffer.push(ch));
         buffer
